@@ -480,6 +480,10 @@ class Merger:
         Raises:
         - `MergeException` when a clean merge is impossible.
         """
+        if not isinstance(lhs, CommentedSet):
+            raise MergeException(
+                "Impossible to add Set data to non-Set destination.", path)
+
         merge_mode = self.config.set_merge_mode(node_coord)
         if merge_mode is SetMergeOpts.LEFT:
             return lhs
